@@ -22,10 +22,15 @@
 (*                  usedRandomM; the stored time is overwritten on every   *)
 (*                  sighting; ANY packet consumes its random) followed by  *)
 (*                  decryptClientInfo (window check)                       *)
-(*   Clean        = one iteration of UsedRandomCleaner (under usedRandomM) *)
-(*                  enabled at any phase: its period (12 h) is far longer  *)
-(*                  than the window, only the phase relative to the        *)
-(*                  presentations matters                                  *)
+(*   CleanBegin / CleanVisit(key) / CleanEnd                               *)
+(*                = one iteration of UsedRandomCleaner: takes usedRandomM, *)
+(*                  decides entry by entry (each decision reads the clock, *)
+(*                  time may pass in between), releases it.  Enabled at    *)
+(*                  any phase: the period (12 h) is far longer than the    *)
+(*                  window, only the phase relative to the presentations   *)
+(*                  matters.  While the cleaner holds the lock no          *)
+(*                  presentation can run (it queues and is served after    *)
+(*                  CleanEnd, with the clock of that moment).              *)
 (*   Tick, Issue  = environment (time passes; a client builds a packet     *)
 (*                  with its own clock, skew -MaxSkew..+MaxSkew ticks)     *)
 (*                                                                         *)
@@ -34,6 +39,13 @@
 (*                       is < now + W, i.e. all of them (DESIGN.md D1)     *)
 (*   "CacheKeyRaw"       pre-fix key: the raw 32 bytes, so the two byte    *)
 (*                       variants of one block are different keys (D2)     *)
+(*   "CleanerSnapshotSwap" the sweep copies the survivors under the READ   *)
+(*                       lock, releases it, and swaps the copy in under    *)
+(*                       the write lock later: presentations can run in    *)
+(*                       the gap (CleanEnd .. CleanSwap)                   *)
+(*   "CheckThenRegister" a presentation looks the random up, decrypts, and *)
+(*                       registers afterwards and only if it authenticated *)
+(*                       (Lookup / Finish are two steps)                   *)
 (* Dev = {} is the code-faithful model of HEAD: canonical key (bit 255     *)
 (* cleared), entry kept while  stored >= now - R  with R = 2W (the code    *)
 (* keeps 2*tolerance + 1 s).                                               *)
@@ -42,7 +54,7 @@ EXTENDS Integers, FiniteSets
 
 CONSTANTS
   W,          \* half-width of the acceptance window, ticks (strict)
-  R,          \* retention: Clean deletes an entry iff stored < now - R
+  R,          \* retention: the cleaner deletes an entry iff stored < now - R
   Horizon,    \* last value of the clock
   NPackets,   \* number of distinct sealed blocks
   MaxPresent, \* bound on presentations
@@ -61,11 +73,16 @@ VARIABLES
   cache,     \* UsedRandom: RawKeys -> time of last sighting, or None
   issued,    \* Blocks -> client timestamp inside the sealed block, or None
   accepts,   \* Blocks -> number of presentations that authenticated (err = nil)
+  sweep,     \* the cleaner: [ph : idle | walk | gap, todo : entries still to decide, surv : copy being built]
+  pend,      \* presentations between their look-up and their registration ("CheckThenRegister" only)
   nPresent, nClean,
   last       \* observation of the last step (what the caller of the code sees)
 
-vars == <<now, cache, issued, accepts, nPresent, nClean, last>>
-View == <<now, cache, issued, accepts, nPresent, nClean>>   \* `last` is an output, not state (cfg: VIEW)
+vars == <<now, cache, issued, accepts, sweep, pend, nPresent, nClean, last>>
+View == <<now, cache, issued, accepts, sweep, pend, nPresent, nClean>>   \* `last` is an output, not state (cfg: VIEW)
+
+SnapSwap == "CleanerSnapshotSwap" \in Dev
+TwoStep  == "CheckThenRegister" \in Dev
 
 \* auth.go: cacheKey := randPubKey; cacheKey[31] &= 0x7f   (pre-fix: the raw bytes)
 CacheKey(b, v) == IF "CacheKeyRaw" \in Dev THEN <<b, v>> ELSE <<b, "same">>
@@ -80,11 +97,20 @@ NoObs == [a |-> "Init", b |-> 0, v |-> "", k |-> 0, ok |-> FALSE, why |-> "", t 
 
 Entries(c) == Cardinality({key \in RawKeys : c[key] # None})
 
+Empty == [key \in RawKeys |-> None]
+Idle  == [ph |-> "idle", todo |-> {}, surv |-> Empty]
+
+\* usedRandomM: the cleaner holds it exclusively while it walks (HEAD), or shared ("CleanerSnapshotSwap")
+WFree == sweep.ph \in {"idle", "gap"}                \* a writer (registerRandom) can get in
+RFree == WFree \/ (SnapSwap /\ sweep.ph = "walk")    \* a reader can get in
+
 Init ==
   /\ now = 0
-  /\ cache = [key \in RawKeys |-> None]
+  /\ cache = Empty
   /\ issued = [b \in Blocks |-> None]
   /\ accepts = [b \in Blocks |-> 0]
+  /\ sweep = Idle
+  /\ pend = {}
   /\ nPresent = 0
   /\ nClean = 0
   /\ last = NoObs
@@ -95,10 +121,13 @@ Issue(b, skew) ==
   /\ \A c \in Blocks : c < b => issued[c] # None
   /\ issued' = [issued EXCEPT ![b] = now + skew]
   /\ last' = [NoObs EXCEPT !.a = "Issue", !.b = b, !.k = skew, !.t = now, !.nc = Entries(cache)]
-  /\ UNCHANGED <<now, cache, accepts, nPresent, nClean>>
+  /\ UNCHANGED <<now, cache, accepts, sweep, pend, nPresent, nClean>>
 
-\* AuthFirstPacket on the captured packet (v = "same") or on an altered copy carrying the same block
+\* AuthFirstPacket on the captured packet (v = "same") or on an altered copy carrying the same block:
+\* one critical section, linearised where registerRandom holds usedRandomM
 Present(b, v) ==
+  /\ ~TwoStep
+  /\ WFree
   /\ issued[b] # None
   /\ nPresent < MaxPresent
   /\ LET key  == CacheKey(b, v)
@@ -111,24 +140,98 @@ Present(b, v) ==
                                  !.why = IF used THEN "replay" ELSE IF inw THEN "ok" ELSE "window",
                                  !.nc = Entries(cache')]
   /\ nPresent' = nPresent + 1
-  /\ UNCHANGED <<now, issued, nClean>>
+  /\ UNCHANGED <<now, issued, sweep, pend, nClean>>
 
-Clean ==
+\* deviation "CheckThenRegister": look-up under the read lock ...
+Lookup(b, v) ==
+  /\ TwoStep
+  /\ RFree
+  /\ issued[b] # None
+  /\ nPresent < MaxPresent
+  /\ Cardinality(pend) < 2
+  /\ pend' = pend \cup {[id |-> nPresent, b |-> b, v |-> v, used |-> cache[CacheKey(b, v)] # None]}
+  /\ nPresent' = nPresent + 1
+  /\ last' = [NoObs EXCEPT !.a = "Lookup", !.b = b, !.v = v, !.t = now, !.nc = Entries(cache)]
+  /\ UNCHANGED <<now, cache, issued, accepts, sweep, nClean>>
+
+\* ... decrypt, and register afterwards, only what authenticated
+Finish(e) ==
+  /\ TwoStep
+  /\ e \in pend
+  /\ LET inw == InWindow(issued[e.b])
+         ok  == ~e.used /\ inw
+     IN /\ (ok => WFree)
+        /\ cache' = IF ok THEN [cache EXCEPT ![CacheKey(e.b, e.v)] = now] ELSE cache
+        /\ accepts' = [accepts EXCEPT ![e.b] = @ + (IF ok THEN 1 ELSE 0)]
+        /\ last' = [NoObs EXCEPT !.a = "Finish", !.b = e.b, !.v = e.v, !.ok = ok, !.t = now,
+                                 !.why = IF e.used THEN "replay" ELSE IF inw THEN "ok" ELSE "window",
+                                 !.nc = Entries(cache')]
+  /\ pend' = pend \ {e}
+  /\ UNCHANGED <<now, issued, sweep, nPresent, nClean>>
+
+\* UsedRandomCleaner wakes up and takes the lock
+CleanBegin ==
   /\ nClean < MaxClean
+  /\ sweep.ph = "idle"
+  /\ sweep' = [ph |-> "walk", todo |-> {key \in RawKeys : cache[key] # None}, surv |-> Empty]
+  /\ nClean' = nClean + 1
+  /\ last' = [NoObs EXCEPT !.a = "CleanBegin", !.t = now, !.nc = Entries(cache)]
+  /\ UNCHANGED <<now, cache, issued, accepts, pend, nPresent>>
+
+\* the decision about one entry, with the clock of that moment (map order is arbitrary)
+CleanVisit(key) ==
+  /\ sweep.ph = "walk"
+  /\ key \in sweep.todo
+  /\ IF SnapSwap
+       THEN /\ sweep' = [sweep EXCEPT !.todo = @ \ {key},
+                                      !.surv = [@ EXCEPT ![key] = IF Evict(cache[key]) THEN None ELSE cache[key]]]
+            /\ cache' = cache
+       ELSE /\ sweep' = [sweep EXCEPT !.todo = @ \ {key}]
+            /\ cache' = [cache EXCEPT ![key] = IF Evict(@) THEN None ELSE @]
+  /\ last' = [NoObs EXCEPT !.a = "CleanVisit", !.b = key[1], !.v = key[2], !.t = now, !.nc = Entries(cache')]
+  /\ UNCHANGED <<now, issued, accepts, pend, nPresent, nClean>>
+
+\* the lock is released (HEAD: the sweep is over; "CleanerSnapshotSwap": only the read lock, the copy is not in yet)
+CleanEnd ==
+  /\ sweep.ph = "walk"
+  /\ sweep.todo = {}
+  /\ sweep' = IF SnapSwap THEN [sweep EXCEPT !.ph = "gap"] ELSE Idle
+  /\ last' = [NoObs EXCEPT !.a = "CleanEnd", !.t = now, !.nc = Entries(cache)]
+  /\ UNCHANGED <<now, cache, issued, accepts, pend, nPresent, nClean>>
+
+\* "CleanerSnapshotSwap": sta.UsedRandom = survivors
+CleanSwap ==
+  /\ sweep.ph = "gap"
+  /\ cache' = sweep.surv
+  /\ sweep' = Idle
+  /\ last' = [NoObs EXCEPT !.a = "CleanSwap", !.t = now, !.nc = Entries(cache')]
+  /\ UNCHANGED <<now, issued, accepts, pend, nPresent, nClean>>
+
+\* a whole sweep without anything in between (all decisions with one clock value): what the generator uses
+\* where the interleaving inside the sweep is not of interest.  Not part of Next: it is CleanBegin,
+\* CleanVisit*, CleanEnd in a row.
+Clean ==
+  /\ ~SnapSwap
+  /\ nClean < MaxClean
+  /\ sweep.ph = "idle"
   /\ cache' = [key \in RawKeys |-> IF cache[key] # None /\ Evict(cache[key]) THEN None ELSE cache[key]]
   /\ nClean' = nClean + 1
   /\ last' = [NoObs EXCEPT !.a = "Clean", !.t = now, !.nc = Entries(cache')]
-  /\ UNCHANGED <<now, issued, accepts, nPresent>>
+  /\ UNCHANGED <<now, issued, accepts, sweep, pend, nPresent>>
 
 Tick ==
   /\ now < Horizon
   /\ now' = now + 1
   /\ last' = [NoObs EXCEPT !.a = "Tick", !.t = now + 1, !.nc = Entries(cache)]
-  /\ UNCHANGED <<cache, issued, accepts, nPresent, nClean>>
+  /\ UNCHANGED <<cache, issued, accepts, sweep, pend, nPresent, nClean>>
 
 Next == \/ \E b \in Blocks, s \in Skews : Issue(b, s)
-        \/ \E b \in Blocks, v \in Variants : Present(b, v)
-        \/ Clean
+        \/ \E b \in Blocks, v \in Variants : Present(b, v) \/ Lookup(b, v)
+        \/ \E e \in pend : Finish(e)
+        \/ CleanBegin
+        \/ \E key \in RawKeys : CleanVisit(key)
+        \/ CleanEnd
+        \/ CleanSwap
         \/ Tick
 
 Spec == Init /\ [][Next]_vars
@@ -149,4 +252,6 @@ TypeOK ==
   /\ \A key \in RawKeys : cache[key] = None \/ cache[key] \in 0..Horizon
   /\ \A b \in Blocks : issued[b] = None \/ issued[b] \in (0 - MaxSkew)..(Horizon + MaxSkew)
   /\ nPresent \in 0..MaxPresent /\ nClean \in 0..MaxClean
+  /\ sweep.ph \in {"idle", "walk", "gap"} /\ sweep.todo \subseteq RawKeys
+  /\ Cardinality(pend) <= 2
 =============================================================================
